@@ -97,9 +97,12 @@ def run(ctx):
 
 
 def has_zero(ops):
-    def z(p):
-        return p["v"] == 0 if p["k"] == "L" else any(z(q) for _, q in p["e"])
-    return any(z(t) for t in ops.values())
+    """does an operand store an element without content (an explicit default value or an empty sub-fiber)?"""
+    def z(p, root):
+        if p["k"] == "L":
+            return p["v"] == 0
+        return (not root and not p["e"]) or any(z(q, False) for _, q in p["e"])
+    return any(z(t, True) for t in ops.values())
 
 
 def replay(ctx, rec):
